@@ -233,7 +233,11 @@ def scanR : List RFrame → Nat → Nat × Option Nat
     match scanR fs tr with
     | (tr1, e1) => if f.written ≤ tr1 ∧ f.more = true then (f.written, some 0) else (tr1, e1.map (· + 1))
 
-def subWritten (n : Nat) (fs : List RFrame) : List RFrame := fs.map fun f => { f with written := f.written - n }
+/-- `size_t` subtraction: wraps modulo 2^64 (reached only on streams the printer cannot produce, and by
+`lyb_skip_siblings` — finding F50) -/
+def subWrap (a n : Nat) : Nat := if n ≤ a then a - n else a + 2 ^ 64 - n
+
+def subWritten (n : Nat) (fs : List RFrame) : List RFrame := fs.map fun f => { f with written := subWrap f.written n }
 
 /-- `ly_in_read` / `ly_in_skip` of `tr` bytes and `written -= tr` in every open frame -/
 def rdata (r : R) (tr : Nat) : R :=
